@@ -30,7 +30,15 @@ type CallSiteSpec struct {
 	Clause Clause
 }
 
+// RecvSpec: an assumption about every value received from a channel parameter
+// (what the producer sends is outside the function): recvfrom ch: <expr over "value">
+type RecvSpec struct {
+	Chan   string
+	Clause Clause
+}
+
 type FuncContract struct {
+	Recvs       []RecvSpec
 	CallSites   []CallSiteSpec
 	File        string
 	Line        int
@@ -85,6 +93,7 @@ type GhostVar struct {
 }
 
 type ContractFile struct {
+	Globals   []Clause // assumed facts about package-level variables (hold after initialisation, never change)
 	GhostVars []*GhostVar
 	Ghosts  []*GhostFunc
 	PkgPath string
@@ -98,7 +107,7 @@ type ContractFile struct {
 var clauseKeywords = map[string]bool{
 	"func": true, "lemma": true, "extern": true, "opaque": true, "pure": true, "props": true, "arith": true,
 	"requires": true, "ensures": true, "modifies": true, "loop": true, "inline": true, "trusted": true,
-	"nosafe": true, "effectfree": true, "uses": true, "ghost": true, "assigns": true, "logged": true, "callsite": true, "where": true,
+	"nosafe": true, "effectfree": true, "uses": true, "ghost": true, "assigns": true, "logged": true, "callsite": true, "where": true, "global": true, "recvfrom": true,
 }
 
 var labelRe = regexp.MustCompile(`^([A-Za-z_][A-Za-z0-9_]*)\s*:\s*([^:=].*)$`)
@@ -221,6 +230,11 @@ func ParseContractFile(path, pkgPath string) (*ContractFile, error) {
 			}
 			cf.Ghosts = append(cf.Ghosts, gf)
 			cur = nil
+		case "global":
+			cur = nil
+			if c, ok := parseClause(rc.line, rest, fmt.Sprintf("g%d", len(cf.Globals)+1)); ok {
+				cf.Globals = append(cf.Globals, c)
+			}
 		case "opaque":
 			cf.Opaque = append(cf.Opaque, strings.TrimSpace(strings.TrimPrefix(rest, "type")))
 		case "pure":
@@ -338,6 +352,15 @@ func ParseContractFile(path, pkgPath string) (*ContractFile, error) {
 				}
 				if c, ok := parseClause(rc.line, strings.TrimSpace(body), fmt.Sprintf("c%d", len(cur.CallSites)+1)); ok {
 					cur.CallSites = append(cur.CallSites, CallSiteSpec{Callee: strings.TrimSpace(callee), Ord: ord, Clause: c})
+				}
+			case "recvfrom":
+				ch, body, ok := strings.Cut(rest, ":")
+				if !ok {
+					addErr(rc.line, "recvfrom <chan>: <expr>")
+					continue
+				}
+				if c, ok := parseClause(rc.line, strings.TrimSpace(body), fmt.Sprintf("rv%d", len(cur.Recvs)+1)); ok {
+					cur.Recvs = append(cur.Recvs, RecvSpec{Chan: strings.TrimSpace(ch), Clause: c})
 				}
 			case "where":
 				if c, ok := parseClause(rc.line, rest, fmt.Sprintf("w%d", len(cur.Where)+1)); ok {
